@@ -11,6 +11,7 @@ pub mod e2smoke;
 pub mod wvr;
 pub mod c05;
 pub mod c06;
+pub mod c06d;
 pub mod c07;
 pub mod c08;
 pub mod c09;
